@@ -9,6 +9,8 @@
 //!                               allow_server_name_wildcard)
 //!   min=12|13  mode=ca|ss  authz=0|1 (server side)  name=<expected server name>|- (client side, ca mode)
 //!   trust=<pem> cert=<pem> key=<pem>      material of the endpoint under test (trust = peer_cert_path)
+//!   ctor=new                    (side=client) build the client with the deprecated TlsClientConfig::new
+//!   wildcard=0|1                (side=fficlient) allow_server_name_wildcard; name is then the dns_name verbatim ("*" included)
 //!   peer=openssl|rodbus|plain   offer=12|13|both
 //!   pmode=ca|ss ptrust=<pem> pcert=<pem> pkey=<pem> [pchain=<pem>]   material of the peer (pchain: intermediates
 //!                               an openssl peer sends along; a rodbus peer gets them inside pcert)
@@ -158,11 +160,22 @@ fn wait_state(rx: &std::sync::mpsc::Receiver<ClientState>, limit: Duration) -> O
     }
 }
 
+#[allow(deprecated)]
+fn client_config_deprecated(server_name: &str, trust: &str, cert: &str, key: &str, min: MinTlsVersion, mode: CertificateMode) -> Result<TlsClientConfig, String> {
+    TlsClientConfig::new(server_name, Path::new(trust), Path::new(cert), Path::new(key), None, min, mode).map_err(|e| format!("CONFIG:{e}"))
+}
+
 fn client_config(kv: &HashMap<String, String>, p: &str, min: MinTlsVersion) -> Result<TlsClientConfig, String> {
     let trust = &kv[&format!("{p}trust")];
     let cert = &kv[&format!("{p}cert")];
     let key = &kv[&format!("{p}key")];
     let mode = kv.get(&format!("{p}mode")).map(|s| s.as_str()).unwrap_or("ca");
+    if p.is_empty() && kv.get("ctor").map(|s| s.as_str()) == Some("new") {
+        // the deprecated constructor TlsClientConfig::new (always carries a server name)
+        let name = kv.get("name").cloned().unwrap_or_else(|| "test.com".to_string());
+        let name = if name == "-" { "test.com".to_string() } else { name };
+        return client_config_deprecated(&name, trust, cert, key, min, mode_of(mode));
+    }
     let r = if mode == "ss" {
         TlsClientConfig::self_signed(Path::new(trust), Path::new(cert), Path::new(key), None, min)
     } else {
@@ -331,8 +344,13 @@ fn run_ffi_client(kv: &HashMap<String, String>, addr: SocketAddr) -> Result<Opti
     let c = |k: &str| CString::new(kv[k].as_str()).unwrap();
     let (trust, cert, key, empty) = (c("trust"), c("cert"), c("key"), CString::new("").unwrap());
     let name = kv.get("name").cloned().unwrap_or_else(|| "-".to_string());
-    let wildcard = name == "-";
-    let dns = CString::new(if wildcard { "*" } else { name.as_str() }).unwrap();
+    // wildcard=<0|1> sets allow_server_name_wildcard explicitly and name is passed as dns_name verbatim ("*" included);
+    // without it: name "-" means "no expected name" = dns_name "*" with the wildcard permitted
+    let (wildcard, dns_text) = match kv.get("wildcard").map(|s| s.as_str()) {
+        Some(w) => (w == "1", name.clone()),
+        None => (name == "-", if name == "-" { "*".to_string() } else { name.clone() }),
+    };
+    let dns = CString::new(dns_text.as_str()).unwrap();
     let host = CString::new(addr.ip().to_string()).unwrap();
     let (tx, rx) = std::sync::mpsc::channel::<i32>();
     let ctx: &'static Mutex<std::sync::mpsc::Sender<i32>> = Box::leak(Box::new(Mutex::new(tx)));
